@@ -4,7 +4,9 @@
 //        turnstile: writer A (severity sevA) is parked inside the stream buffer - in its write
 //        (w) or in the flush that follows (s) - writer B (severity sevB) must block before entering
 //   mt stress <o|e> <threads> <records> <sevmode> <seed> <build>
-//        sevmode 0..5: every record at that severity; 6: (5t+k) mod 6; 7: thread 0 fatal, others k mod 5
+//        sevmode 0..5: every record at that severity; 6: (5t+k) mod 6; 7: thread 0 fatal, others k mod 5;
+//        8: info, and every second record is logged by a callable operand of the following statement
+//           (2*records records per thread: inner 2k, then outer 2k+1)
 #include "common.hpp"
 
 #include <nitro/log/attribute/message.hpp>
@@ -142,6 +144,8 @@ protected:
 
 static int sev_of(int t, int k, int mode)
 {
+    if (mode == 8)
+        return 2;
     if (mode <= 5)
         return mode;
     if (mode == 6)
@@ -203,6 +207,8 @@ static std::string verdict(int n, int r, int mode, const std::string& out, bool 
     if (!cur.empty())
         lines.push_back(cur);
     std::vector<std::string> expected;
+    if (mode == 8)
+        r *= 2;
     for (int t = 0; t < n; t++)
         for (int k = 0; k < r; k++)
             expected.push_back(record_text(t, k, sev_of(t, k, mode)));
@@ -292,6 +298,21 @@ static std::string handle(const std::vector<std::string>& f)
                     std::this_thread::yield();
                 for (int k = 0; k < r; k++)
                 {
+                    if (mode == 8)
+                    {
+                        // a statement whose operand is a callable that itself logs (same logger, same severity,
+                        // same thread): the inner record is complete before the outer one is
+                        std::string inner = record_text(t, 2 * k, 2), outer = record_text(t, 2 * k + 1, 2);
+                        auto operand = [&]() -> std::string {
+                            log(2, inner);
+                            return outer;
+                        };
+                        if (use_out)
+                            LogOut::info() << operand;
+                        else
+                            LogErr::info() << operand;
+                        continue;
+                    }
                     int sev = sev_of(t, k, mode);
                     log(sev, record_text(t, k, sev));
                     if ((k + t + seed) % 5 == 0)
